@@ -1,6 +1,6 @@
 (* C08 - Uniquify makes every non-leaf instance unique without changing the design. Property theorems only. *)
 From Coq Require Import List ZArith String.
-From SV Require Import Base.Base IR.State IR.NS IR.Ops Xform.Clone Xform.Xform Proofs.Inv1a Proofs.Inv2a Proofs.Fresh Proofs.RefK Proofs.NsInv Proofs.InvW Proofs.FieldT Proofs.XformInv Proofs.UniqInv Proofs.CloneFull Proofs.UniqFull Proofs.NsSlot Proofs.CloneData Proofs.UniqElab Proofs.UniqNames Xform.Strs.
+From SV Require Import Base.Base IR.State IR.NS IR.Ops Xform.Clone Xform.Xform Proofs.Inv1a Proofs.Inv2a Proofs.Fresh Proofs.RefK Proofs.NsInv Proofs.InvW Proofs.FieldT Proofs.XformInv Proofs.UniqInv Proofs.CloneFull Proofs.UniqFull Proofs.NsSlot Proofs.CloneData Proofs.UniqElab Proofs.UniqFresh Proofs.UniqNames Xform.Strs.
 Import ListNotations.
 
 (* "running uniquify again changes nothing": when every instance met by the breadth-first walk
@@ -145,13 +145,18 @@ Qed.
 Print Assumptions C08_same_elaboration.
 
 (* ---- "new definitions get fresh, non-colliding names" ----
-   LT n0 s: the name table of every library l < n0 that has one is exactly the names of its definitions
-   (a consequence of the C10 invariant NsInv, hence true in every reachable state); PL n0 s: libraries
-   that hold definitions are older than n0. One completed round adds the copy d' = next s to the library
-   of the original; if the original is named nm the copy is named nm_sdn_unique_<counter> and the counter
-   advances; if the library has a name table, NO definition of the library carried that name at the moment
-   of the addition (the namespace manager was asked and its table is exact); the names of all other
-   definitions are unchanged; the table invariant holds again. *)
+   _make_instance_unique asks _get_unique_name_modifier for the first counter value k, counting up from the
+   module counter, such that no definition of the library carries the name nm_sdn_unique_<k> and - when the
+   cell has an EDIF identifier - none carries, without case, the identifier <identifier>_sdn_unique_<k>
+   (Xform.fresh_ctr). The module counter is left at k + 1.
+   LT n0 s: the name table, and under the EDIF policy the identifier table, of every library l < n0 that
+   has one is exactly the names (case-folded identifiers) of its definitions (a consequence of the C10
+   invariant NsInv, hence true in every reachable state); PL n0 s: libraries that hold definitions are
+   older than n0. One completed round adds the copy d' = next s to the library of the original; if the
+   original is named nm the copy is named nm_sdn_unique_<k> for a k >= the counter and the counter becomes
+   k + 1; NO definition of the library carried that name, none carried the new identifier up to case, and
+   every candidate between the counter and k was in use (k is the first free one); the names and
+   identifiers of all other definitions are unchanged; the table invariant holds again. *)
 Theorem C08_round_fresh_name : forall n0 x inst d x',
   UF (st x) -> iref (st x) inst = Some d -> inst < next (st x) -> n0 <= next (st x) -> LT n0 (st x) -> PL n0 (st x) ->
   make_instance_unique x inst = (x', None) ->
@@ -159,27 +164,95 @@ Theorem C08_round_fresh_name : forall n0 x inst d x',
   exists lib, par (st x) RDefs d = Some lib /\ par (st x') RDefs (next (st x)) = Some lib /\
     (forall c, In c (kids (st x') RDefs lib) <-> c = next (st x) \/ In c (kids (st x) RDefs lib)) /\
     (forall l, l <> lib -> kids (st x') RDefs l = kids (st x) RDefs l) /\
-    (forall l c, In c (kids (st x) RDefs l) -> get_str (st x') c str_NAME = get_str (st x) c str_NAME) /\
+    (forall l c, In c (kids (st x) RDefs l) ->
+       get_str (st x') c str_NAME = get_str (st x) c str_NAME /\ ident_key (st x') c = ident_key (st x) c) /\
     match get_str (st x) d str_NAME with
-    | Some nm => get_str (st x') (next (st x)) str_NAME = Some (nm ++ str_uniq ++ dec (uniq_ctr x)) /\
-                 uniq_ctr x' = S (uniq_ctr x) /\
-                 (nstab (st x) lib <> None -> forall c, In c (kids (st x) RDefs lib) ->
-                    get_str (st x) c str_NAME <> Some (nm ++ str_uniq ++ dec (uniq_ctr x)))
+    | Some nm => exists k, uniq_ctr x <= k /\ uniq_ctr x' = S k /\
+                 get_str (st x') (next (st x)) str_NAME = Some (nm ++ str_uniq ++ dec k) /\
+                 ident_key (st x') (next (st x)) = option_map (fun i => lower (i ++ str_uniq ++ dec k)) (get_str (st x) d str_IDENT) /\
+                 (forall c, In c (kids (st x) RDefs lib) -> get_str (st x) c str_NAME <> Some (nm ++ str_uniq ++ dec k)) /\
+                 (forall i c w, get_str (st x) d str_IDENT = Some i -> In c (kids (st x) RDefs lib) ->
+                    get_str (st x) c str_IDENT = Some w -> lower w <> lower (i ++ str_uniq ++ dec k)) /\
+                 (forall j, uniq_ctr x <= j -> j < k ->
+                    suffix_taken (st x) (kids (st x) RDefs lib) nm (get_str (st x) d str_IDENT) (str_uniq ++ dec j) = true)
     | None => get_str (st x') (next (st x)) str_NAME = None /\ uniq_ctr x' = uniq_ctr x
     end.
 Proof. intros n0 x inst d x' U Ei Hi Hn HL HP E. apply (round_names n0 x inst d U Ei Hi Hn HL HP x' E). Qed.
 Print Assumptions C08_round_fresh_name.
 
-(* what happens on a clash: when the library has a name table and already holds a definition named
-   nm_sdn_unique_<counter>, the round does NOT complete - add_definition raises (ValueError) after the
-   clone has been made and renamed; C08_name_clash_sample shows the outcome and the debris *)
-Theorem C08_name_clash_raises : forall n0 x inst d lib nm c,
+(* the search for the counter value never gives up: two candidates per definition of the library plus one
+   always contain a free one (a definition blocks at most one candidate by its name and one by its
+   identifier; str(k) is injective) - the Python loop [while True] terminates, and the model's out-of-fuel
+   outcome of the search is never an outcome of a round *)
+Theorem C08_suffix_search_total : forall s defs nm idv k, fresh_ctr (fresh_fuel defs) s defs nm idv k <> None.
+Proof. exact fresh_ctr_total. Qed.
+Print Assumptions C08_suffix_search_total.
+
+Theorem C08_round_never_out_of_fuel : forall x inst, snd (make_instance_unique x inst) <> Some XOutOfFuel.
+Proof. exact round_never_out_of_fuel. Qed.
+Print Assumptions C08_round_never_out_of_fuel.
+
+(* a round NEVER fails because of the name it chose (the repaired defect C08-uniquify-name-clash).
+   make_instance_unique is: Definition.clone, the renaming block, add_definition, the reference change
+   (C08_round_shape, by computation); ns_add_conflict is the naming test of NamespaceManager.add, the only
+   way add_definition can refuse a parentless definition offered to a library for its name or identifier
+   (C08_add_refused_exactly_by_conflict). In every round of every run of uniquify started in a state
+   reachable by editing calls - with any counter values, any fuel, whether or not the run completes, and
+   whatever names and identifiers the library already holds (uniq_rounds lists the states in which the walk
+   enters _make_instance_unique) - once the cell has been copied and the copy renamed, that test passes for
+   the copy of a named cell: add_definition is not refused by the name/identifier check. (A cell without a
+   name is not renamed by _make_instance_unique at all.) *)
+Theorem C08_round_shape : forall x inst,
+  make_instance_unique x inst =
+  match iref (st x) inst with
+  | None => (x, Some XAttr)
+  | Some d =>
+      match par (st x) RDefs d with
+      | None => (x, Some XAttr)
+      | Some lib =>
+          let '(r, d') := clone_definition (st x) d in
+          liftR x r (fun x1 =>
+            match named_block x1 lib d d' with
+            | (x5, Some e) => (x5, Some e)
+            | (x5, None) =>
+                liftR x5 (op_add (st x5) RDefs lib d' (Some (S (index_of d (kids (st x) RDefs lib))))) (fun x6 =>
+                liftR x6 (op_set_reference (st x6) inst (Some d')) (fun x7 => (x7, None)))
+            end)
+      end
+  end.
+Proof. exact make_instance_unique_unfold. Qed.
+Print Assumptions C08_round_shape.
+
+Theorem C08_add_refused_exactly_by_conflict : forall s lib c pos,
+  kind_of s lib = Some KLibrary -> kind_of s c = Some KDefinition -> par s RDefs c = None ->
+  ns_add_conflict s lib c KDefinition = true -> op_add s RDefs lib c pos = (s, Some XValue).
+Proof. exact op_add_refused_by_name. Qed.
+Print Assumptions C08_add_refused_exactly_by_conflict.
+
+Theorem C08_add_never_refused_by_name : forall ops u f fuel n t dtop xr i d lib x5,
+  let s := run ops init in
+  top s n = Some t -> iref s t = Some dtop ->
+  In (xr, i) (uniq_rounds fuel (mkX s u f) (kids s RChildren dtop)) ->
+  iref (st xr) i = Some d -> par (st xr) RDefs d = Some lib -> get_str (st xr) d str_NAME <> None ->
+  snd (fst (clone_definition (st xr) d)) = None ->
+  named_block (mkX (fst (fst (clone_definition (st xr) d))) (uniq_ctr xr) (flat_ctr xr)) lib d (next (st xr)) = (x5, None) ->
+  ns_add_conflict (st x5) lib (next (st xr)) KDefinition = false.
+Proof.
+  intros ops u f fuel n t dtop xr i d lib x5 s Ht Hr Hin Hri Hp Hnm Hc Hnb.
+  assert (HL : LT (next s) s) by (apply lt_of_nsinv; apply (NsInv.reachable_nsinv ops)).
+  apply (uniquify_add_never_refused_by_name fuel (mkX s u f) n t dtop xr i d lib x5 (reachable_uf ops) HL Ht Hr Hin Hri Hp Hnm Hc Hnb).
+Qed.
+Print Assumptions C08_add_never_refused_by_name.
+
+(* the same for one round from any state with the invariants *)
+Theorem C08_round_add_never_refused_by_name : forall n0 x inst d lib x5,
   UF (st x) -> iref (st x) inst = Some d -> inst < next (st x) -> n0 <= next (st x) -> LT n0 (st x) -> PL n0 (st x) ->
-  par (st x) RDefs d = Some lib -> get_str (st x) d str_NAME = Some nm -> nstab (st x) lib <> None ->
-  In c (kids (st x) RDefs lib) -> get_str (st x) c str_NAME = Some (nm ++ str_uniq ++ dec (uniq_ctr x)) ->
-  snd (make_instance_unique x inst) <> None.
-Proof. exact round_clash. Qed.
-Print Assumptions C08_name_clash_raises.
+  par (st x) RDefs d = Some lib -> snd (fst (clone_definition (st x) d)) = None ->
+  named_block (mkX (fst (fst (clone_definition (st x) d))) (uniq_ctr x) (flat_ctr x)) lib d (next (st x)) = (x5, None) ->
+  get_str (st x) d str_NAME <> None ->
+  ns_add_conflict (st x5) lib (next (st x)) KDefinition = false.
+Proof. intros n0 x inst d lib x5 U Ei Hi Hn HL HP. apply (round_add_check n0 x inst d U Ei Hi Hn HL HP lib x5). Qed.
+Print Assumptions C08_round_add_never_refused_by_name.
 
 (* a COMPLETED uniquify never produced a duplicate: in every state reachable by editing calls, with any
    counter values and fuel, after a completed run no library (that has a name table) holds two definitions
@@ -202,6 +275,21 @@ Proof.
   intros l t c1 c2 v Hl Ht H1 H2 E1 E2. apply (lt_unique _ _ l t c1 c2 v L Hl Ht H1 H2 E1 E2).
 Qed.
 Print Assumptions C08_fresh_names.
+
+(* ... and, under the EDIF policy, no two definitions of a library whose identifiers differ only in case *)
+Theorem C08_fresh_identifiers : forall ops u f fuel n x',
+  let s := run ops init in
+  uniquify fuel (mkX s u f) n = (x', None) ->
+  forall l t c1 c2 v1 v2, l < next s -> nstab (st x') l = Some t -> ns_pol t = PolEdif ->
+    In c1 (kids (st x') RDefs l) -> In c2 (kids (st x') RDefs l) ->
+    get_str (st x') c1 str_IDENT = Some v1 -> get_str (st x') c2 str_IDENT = Some v2 -> lower v1 = lower v2 -> c1 = c2.
+Proof.
+  intros ops u f fuel n x' s E l t c1 c2 v1 v2 Hl Ht Hp H1 H2 E1 E2 Hv.
+  assert (HL : LT (next s) s) by (apply lt_of_nsinv; apply (NsInv.reachable_nsinv ops)).
+  destruct (uniquify_names fuel (mkX s u f) n x' (reachable_uf ops) HL E) as [L _]. cbn [st] in L.
+  apply (lt_unique_ident _ _ l t c1 c2 v1 v2 L Hl Ht Hp H1 H2 E1 E2 Hv).
+Qed.
+Print Assumptions C08_fresh_identifiers.
 
 (* non-vacuity of (a)-(c) and of the name theorems: library "work" with the leaf cell INV (port A), the
    cell mid (port P, cable n joining P and the pin A of its child u : INV) and the cell top with two
@@ -245,38 +333,110 @@ Example C08_clone_unfold_sample :
   unfold 3 (fst (fst r)) 17 = unfold 3 s 5 /\ unfold 3 s 5 <> TCut.
 Proof. vm_compute. repeat split; try discriminate. repeat constructor. Qed.
 
-(* the clash: the same design with a definition already named mid_sdn_unique_0 in the library and the
-   counter at 0 (a fresh process): uniquify ends with ValueError; the copy of mid (18) has been made, is
-   in no library, and its child (23) is registered with the leaf cell INV next to the original child (6);
-   m1 still instantiates mid. The same happens in the implementation (reproducer in the report). *)
-Example C08_name_clash_sample :
-  let s := run (c08_design ++ [OCreate RDefs 1 (Some (s2l "mid_sdn_unique_0"%string)) [] 0 None]) init in
+(* the history that used to clash (finding C08-uniquify-name-clash, now repaired): the same design with a
+   definition already named mid_sdn_unique_0 in the library and the counter at 0 (a fresh process). uniquify
+   completes: the copy of mid (18) takes the next free name mid_sdn_unique_1, is placed right after mid, m1
+   is re-pointed to it, the counter ends at 2, no copy is left outside the library, every instance met by
+   the walk is unique afterwards and the top unfolds as before. The implementation does the same (replayed
+   on every run: harness/xform_check.py clash_witness, corpus/py/c08-uniquify-name-clash.py). *)
+Definition c08_clash_design : list op :=
+  c08_design ++ [OCreate RDefs 1 (Some (s2l "mid_sdn_unique_0"%string)) [] 0 None].
+
+Example C08_name_clash_repaired_sample :
+  let s := run c08_clash_design init in
   let r := uniquify 20 (mkX s 0 0) 0 in
   let s' := st (fst r) in
-  next s = 18 /\ snd r = Some (XE XValue) /\ next s' = 24 /\ kids s' RDefs 1 = [2; 5; 11; 17] /\
-  par s' RDefs 18 = None /\ drefs s' 2 = [6; 23] /\ iref s' 12 = Some 5 /\
-  get_str s' 18 str_NAME = Some (s2l "mid_sdn_unique_0"%string).
+  next s = 18 /\ snd r = None /\ next s' = 24 /\ kids s' RDefs 1 = [2; 5; 18; 11; 17] /\
+  par s' RDefs 18 = Some 1 /\ drefs s' 2 = [6; 23] /\ iref s' 12 = Some 18 /\ iref s' 13 = Some 5 /\
+  drefs s' 5 = [13] /\ drefs s' 18 = [12] /\ uniq_ctr (fst r) = 2 /\
+  map (fun c => get_str s' c str_NAME) (kids s' RDefs 1) =
+    [Some (s2l "INV"%string); Some (s2l "mid"%string); Some (s2l "mid_sdn_unique_1"%string); Some (s2l "top"%string);
+     Some (s2l "mid_sdn_unique_0"%string)] /\
+  uniq_clean 20 s' (kids s' RChildren 11) = true /\ unfold 4 s' 11 = unfold 4 s 11.
 Proof. vm_compute. repeat split. Qed.
 
-(* so "uniquify gives new definitions fresh names" does not hold unconditionally: the module counter
-   restarts at 0 in every process and the suffix is never checked against the library before the clone is
-   made; a netlist that already contains <name>_sdn_unique_<k> (for instance one written after an earlier
-   uniquify) makes a later run raise mid-way. Stated and refuted from the computed witness. *)
-Definition C08_never_clashes : Prop := forall ops u f fuel n,
-  snd (uniquify fuel (mkX (run ops init) u f) n) <> Some (XE XValue).
-Theorem C08_never_clashes_refuted : ~ C08_never_clashes.
+(* the hypotheses of C08_add_never_refused_by_name on that history: the walk enters _make_instance_unique
+   once, on m1 (12), in the start state (C08_add_never_refused_sample_round); mid (5) is named and sits in library 1; the clone and the renaming
+   complete; the naming test of add_definition passes although the library holds mid_sdn_unique_0 *)
+Example C08_add_never_refused_sample :
+  let s := run c08_clash_design init in
+  let x := mkX s 0 0 in
+  top s 0 = Some 16 /\ iref s 16 = Some 11 /\ map snd (uniq_rounds 20 x (kids s RChildren 11)) = [12] /\
+  iref s 12 = Some 5 /\ par s RDefs 5 = Some 1 /\ get_str s 5 str_NAME = Some (s2l "mid"%string) /\
+  snd (fst (clone_definition s 5)) = None /\
+  snd (named_block (mkX (fst (fst (clone_definition s 5))) 0 0) 1 5 18) = None /\
+  ns_add_conflict (st (fst (named_block (mkX (fst (fst (clone_definition s 5))) 0 0) 1 5 18))) 1 18 KDefinition = false /\
+  (* while the name the unrepaired code would have used is refused *)
+  name_taken s (kids s RDefs 1) (s2l "mid_sdn_unique_0"%string) = true.
+Proof. vm_compute. repeat split. Qed.
+
+Example C08_add_never_refused_sample_round :
+  let s := run c08_clash_design init in
+  let x := mkX s 0 0 in
+  In (x, 12) (uniq_rounds 20 x (kids s RChildren 11)).
 Proof.
-  intro H.
-  apply (H (c08_design ++ [OCreate RDefs 1 (Some (s2l "mid_sdn_unique_0"%string)) [] 0 None]) 0 0 20 0).
-  vm_compute. reflexivity.
+  intros s x. assert (Hk : kids s RChildren 11 = [12; 13]) by (vm_compute; reflexivity). rewrite Hk.
+  apply (uniq_rounds_head 19 x 12 [13]). vm_compute. reflexivity.
 Qed.
-Print Assumptions C08_never_clashes_refuted.
+
+(* under the EDIF policy identifiers count too, without case: mid carries the identifier Mid; the library
+   already holds a cell "other" with the identifier MID_SDN_unique_0 (blocks k = 0 by identifier) and a cell
+   named mid_sdn_unique_1 (blocks k = 1 by name); the copy becomes mid_sdn_unique_2 / Mid_sdn_unique_2 and
+   the counter ends at 3 *)
+Definition c08_edif_design : list op :=
+  [ OSetPolicy PolEdif; ONew KNetlist None []; OCreate RLibs 0 (Some (s2l "work"%string)) [(str_IDENT, VStr (s2l "work"%string))] 0 None;
+    OCreate RDefs 1 (Some (s2l "INV"%string)) [(str_IDENT, VStr (s2l "INV"%string))] 0 None;
+    OCreate RDefs 1 (Some (s2l "mid"%string)) [(str_IDENT, VStr (s2l "Mid"%string))] 0 None;
+    OCreate RChildren 3 (Some (s2l "u"%string)) [(str_IDENT, VStr (s2l "u"%string))] 0 (Some 2);
+    OCreate RDefs 1 (Some (s2l "top"%string)) [(str_IDENT, VStr (s2l "top"%string))] 0 None;
+    OCreate RChildren 5 (Some (s2l "m1"%string)) [(str_IDENT, VStr (s2l "m1"%string))] 0 (Some 3);
+    OCreate RChildren 5 (Some (s2l "m2"%string)) [(str_IDENT, VStr (s2l "m2"%string))] 0 (Some 3);
+    OSetTop 0 (TopDef 5);
+    OCreate RDefs 1 (Some (s2l "other"%string)) [(str_IDENT, VStr (s2l "MID_SDN_unique_0"%string))] 0 None;
+    OCreate RDefs 1 (Some (s2l "mid_sdn_unique_1"%string)) [(str_IDENT, VStr (s2l "x"%string))] 0 None ].
+
+Example C08_edif_identifier_sample :
+  let s := run c08_edif_design init in
+  let r := uniquify 20 (mkX s 0 0) 0 in
+  let s' := st (fst r) in
+  snd r = None /\ next s = 11 /\ kids s' RDefs 1 = [2; 3; 11; 5; 9; 10] /\ uniq_ctr (fst r) = 3 /\
+  match nstab s 1 with Some t => ns_pol t = PolEdif | None => False end /\
+  get_str s' 11 str_NAME = Some (s2l "mid_sdn_unique_2"%string) /\ get_str s' 11 str_IDENT = Some (s2l "Mid_sdn_unique_2"%string) /\
+  iref s' 6 = Some 11 /\ iref s' 7 = Some 3.
+Proof. vm_compute. repeat split. Qed.
+
+(* the hypothesis "the cell has a name" of C08_add_never_refused_by_name is necessary, in the model as in the
+   implementation: _make_instance_unique renames the copy only [if instance.reference.name is not None]. A
+   cell that carries an EDIF identifier but no name, in a library under the EDIF policy, instantiated twice:
+   the copy (9) keeps the identifier "mid", the naming test refuses it, uniquify ends with ValueError, the
+   copy stays outside the library with its child (10) registered with LEAF. Not the repaired finding (the
+   counter plays no role); reported separately (suspected defect, replayed on both sides by
+   harness/xform_check.py unnamed_identifier_witness). *)
+Definition c08_unnamed_design : list op :=
+  [ OSetPolicy PolEdif; ONew KNetlist (Some (s2l "n"%string)) []; OCreate RLibs 0 (Some (s2l "work"%string)) [] 0 None;
+    OCreate RDefs 1 (Some (s2l "LEAF"%string)) [] 0 None;
+    OCreate RDefs 1 None [(str_IDENT, VStr (s2l "mid"%string))] 0 None;
+    OCreate RChildren 3 (Some (s2l "u"%string)) [] 0 (Some 2);
+    OCreate RDefs 1 (Some (s2l "top"%string)) [] 0 None;
+    OCreate RChildren 5 (Some (s2l "a"%string)) [] 0 (Some 3);
+    OCreate RChildren 5 (Some (s2l "b"%string)) [] 0 (Some 3);
+    OSetTop 0 (TopDef 5) ].
+
+Example C08_unnamed_cell_with_identifier_sample :
+  let s := run c08_unnamed_design init in
+  let r := uniquify 20 (mkX s 0 0) 0 in
+  let s' := st (fst r) in
+  get_str s 3 str_NAME = None /\ get_str s 3 str_IDENT = Some (s2l "mid"%string) /\
+  snd r = Some (XE XValue) /\ next s = 9 /\ next s' = 11 /\ kids s' RDefs 1 = [2; 3; 5] /\ par s' RDefs 9 = None /\
+  drefs s' 2 = [4; 10] /\ iref s' 6 = Some 3 /\ get_str s' 9 str_IDENT = Some (s2l "mid"%string) /\ uniq_ctr (fst r) = 0 /\
+  ns_add_conflict (st (fst (named_block (mkX (fst (fst (clone_definition s 3))) 0 0) 1 3 9))) 1 9 KDefinition = true.
+Proof. vm_compute. repeat split. Qed.
 
 (* The uniqueness clause without the two side conditions of C08_makes_unique (top definition
    referenced by the top instance only; top instance parentless) is kept here as first written; it is
    proved above under those conditions, which hold for every netlist whose top was set from a
    definition. The clauses "same elaborated design" and "fresh names" are proved above
-   (C08_same_elaboration, C08_fresh_names, with the clash outcome C08_name_clash_raises); they are also
+   (C08_same_elaboration, C08_fresh_names, C08_add_never_refused_by_name); they are also
    checked on every run by the correspondence of the uniquify model with the implementation and by the
    union-find elaboration oracle. *)
 Definition C08_full : Prop := forall fuel x n x',
